@@ -67,7 +67,7 @@ theorem C07_exit_drains (s0 : BSt) (h0 : DrainFresh s0) (ops : List Op) :
     rw [hform]; exact exitFinal_drained sK hK heK
   have hT : TCInv s' := by
     rw [hs']
-    exact TCInv_closed.gone _ (exitLoop_ok TCInv_closed hinj _ _ _ hsp)
+    exact TCInv_closed.gone _ (exitLoop_ok TCInv_closed.toClosedB hinj _ _ _ hsp)
   refine ⟨?_, by rw [hs']⟩
   intro i hi
   have hd : (s'.th i).buf = [] ∧ (s'.th i).qStmts = [] := by
